@@ -254,7 +254,7 @@ func genUserMethods(r *RNG) *uCase {
 				// an explicit return, in every position a return can stand in; a
 				// bare `return` hands back nil
 				c := Pick(r, scal)
-				form := r.Intn(9)
+				form := r.Intn(11)
 				switch form {
 				case 0, 1:
 					m.def = append(m.def, "  return "+nLit(c)+" if flag")
@@ -272,6 +272,12 @@ func genUserMethods(r *RNG) *uCase {
 					m.def = append(m.def, "  [1, 2].each do |e|", "    return "+nLit(c)+" if flag", "  end")
 				case 7:
 					m.def = append(m.def, "  while flag", "    return "+nLit(c), "  end")
+				case 9:
+					// one-line if: the bare return is followed by `end` on its own line
+					m.def = append(m.def, "  if flag then return end")
+					c = "NilClass"
+				case 10:
+					m.def = append(m.def, "  if flag then return "+nLit(c)+" end")
 				default:
 					m.def = append(m.def, "  case flag", "  when true then return "+nLit(c), "  end")
 				}
@@ -684,7 +690,7 @@ func init() {
 			return judgeUser(c, s.BlackBox(), &uc)
 		},
 		Run: func(c *CheckCtx) {
-			c.rule = "generated programs: 1-4 user methods (top level, instance methods and class methods of a class) with positional, default and keyword parameters; 1-5 call sites each with literal or union-variable arguments, before the definition (top-level methods), after it, and inside other methods that are themselves called; bodies probe every parameter with dbtp, may contain `p.to_s` (every class answers) or `p.zz_nope` (none answers), an explicit return in one of nine positions (modifier if/unless, inside if, bare, inside a block, a while, a case), and end in a begin/rescue/ensure expression or have rescue/ensure clauses of their own, a literal, a parameter or `p.to_s`; run with -i. Oracle: each parameter probe and the -i signature hint cover the union of the classes passed at all call sites (and contain no class that is neither passed nor the default's); each call's result equals the union of the body result and explicit return values; no diagnostic on `p.to_s`, a diagnostic on `p.zz_nope`. distinct_nontrivial = distinct programs"
+			c.rule = "generated programs: 1-4 user methods (top level, instance methods and class methods of a class) with positional, default and keyword parameters; 1-5 call sites each with literal or union-variable arguments, before the definition (top-level methods), after it, and inside other methods that are themselves called; bodies probe every parameter with dbtp, may contain `p.to_s` (every class answers) or `p.zz_nope` (none answers), an explicit return in one of eleven positions (modifier if/unless, inside if, bare, inside a block, a while, a case, a one-line `if ... then return [v] end`), and end in a begin/rescue/ensure expression or have rescue/ensure clauses of their own, a literal, a parameter or `p.to_s`; run with -i. Oracle: each parameter probe and the -i signature hint cover the union of the classes passed at all call sites (and contain no class that is neither passed nor the default's); each call's result equals the union of the body result and explicit return values; no diagnostic on `p.to_s`, a diagnostic on `p.zz_nope`. distinct_nontrivial = distinct programs"
 			c.assumptions = []string{"a defaulted parameter's type includes its default literal's class", "methods whose body contains the failing operation are not judged for their return type (recovery ends the body)"}
 			r := c.RNG.Sub(15)
 			n := c.N(300, 8000)
